@@ -36,6 +36,9 @@ func costs(points []PointInfo, upto int) (pre, flt int) {
 	return
 }
 
+// Costs returns the number of preemptions, faults and non-default forced switches an execution used.
+func Costs(x *Exec) (pre, flt, free int) { return costs3(x.Points, len(x.Points)) }
+
 func costs3(points []PointInfo, upto int) (pre, flt, free int) {
 	for i := 0; i < upto; i++ {
 		if points[i].Chosen != 0 {
